@@ -19,8 +19,10 @@ _classes = []
 
 
 def rec_classes():
+    from cutplace import fields, checks, errors
+    if _classes and fields.AbstractFieldFormat not in _classes[0].__mro__:
+        del _classes[:]  # the modules were reloaded: define the classes again on the current base classes
     if not _classes:
-        from cutplace import fields, checks, errors
 
         class RecFieldFormat(fields.AbstractFieldFormat):
             def __init__(self, field_name, is_allowed_to_be_empty, length, rule, data_format):
